@@ -49,10 +49,10 @@ STRESS_SCENARIOS = {
     "C06": (["refs", "queuedask"], 0, ["refs", "hammer", "mix", "queuedask"], 60),
     "C07": (["refs", "cancel", "backlog", "blocking", "selfchain"], 0, ["refs", "cancel", "backlog", "blocking", "selfchain", "hammer", "mix"], 60),
     "C08": (["idlewin", "backlog", "cancel"], 0, ["idlewin", "backlog", "cancel"], 0),
-    "C09": (["blocking", "cancel", "backlog"], 0, ["blocking", "cancel", "backlog"], 0),
+    "C09": (["blocking", "cancel", "backlog", "late"], 0, ["blocking", "cancel", "backlog", "late"], 0),
     "C10": (["late", "blocking", "lazyfut"], 0, ["late", "blocking", "lazyfut"], 0),
     "C11": (["ids", "refs", "selfchain", "afterend", "queuedask"], 0, ["ids", "refs", "selfchain", "afterend", "queuedask"], 0),
-    "C12": (["ids", "hookpanic", "askjoin"], 0, ["ids", "hookpanic", "askjoin"], 0),
+    "C12": (["ids", "hookpanic", "askjoin", "queuedask"], 0, ["ids", "hookpanic", "askjoin", "queuedask"], 0),
     "C13": (["blocking", "replyclose", "mix"], 4, ["blocking", "replyclose", "mix"], 60),
     "C16": (["lazyfut", "blocking", "erasedblk", "refs", "hookpanic"], 0, ["lazyfut", "blocking", "erasedblk", "refs", "hookpanic"], 0),
     "C17": (["blocking", "late", "erasedblk"], 0, ["blocking", "late", "erasedblk", "hammer"], 60),
@@ -344,7 +344,7 @@ def macrocorpus(prop, tier, seed, ctx):
         for p in pos:
             e = expect[p["id"]]
             logs = 1 if e == "log" else 0
-            want = f"start_ok=true ask_ok={p['ask_ok']} ask_err={p['ask_err']} logs_ask=0 logs_tell_ok=0 logs_tell_err={logs} calls=4 completed=true parked=true killed=true logs_tell_err_kill_pending={logs}"
+            want = f"start_ok=true ask_ok={p['ask_ok']} ask_err={p['ask_err']} logs_ask=0 logs_tell_ok=0 logs_tell_err={logs} calls=4 completed=true parked=true killed=true logs_tell_err_kill_pending={logs} logs_ask_zero_timeout=0 calls_after_zero=5"
             g = got.get(p["id"], "<no output>")
             ok = g.startswith(want + " text=")
             if ok and logs == 1 and p["err_text"] and p["err_text"] not in g.split(" text=", 1)[1]:
